@@ -25,7 +25,8 @@ Init == /\ s = SInit /\ in = Rec(NoWord, FALSE, NoCfg) /\ cur = <<>> /\ hist = <
 Cfgs == IF HasCfg THEN {0, 9} ELSE {0}
 ForeignW == W(<<1, 2, 3, 4>>, 0)
 \* word k of a set of the given kind: "m" matching; "o" another kind of set sharing the first word (all
-\* later words differ); "n2".. near-miss: only word SetLen differs; "x" a set sharing nothing
+\* later words differ); "n" near-miss: only word SetLen differs; "x" a set sharing nothing (first word: right
+\* symbols, wrong K flags); "z": only the K flags of the first word are wrong (FirstCtrl 1 -> all four K)
 KindWord(kind, c, k) ==
     LET good == IF HasCfg /\ k = 2 THEN W(<<SetWords[2][1], c, SetWords[2][3], SetWords[2][4]>>, 0)
                 ELSE W(SetWords[k], CtrlOf(k))
@@ -34,7 +35,8 @@ KindWord(kind, c, k) ==
          [] kind = "o" -> IF k = 1 THEN good ELSE off
          [] kind = "n" -> IF k = SetLen THEN off ELSE good
          [] kind = "x" -> IF k = 1 THEN W(SetWords[1], (FirstCtrl + 14) % 16) ELSE off
-Kinds == {"m", "o", "n", "x"}
+         [] kind = "z" -> IF k = 1 THEN W(SetWords[1], (FirstCtrl + 14) % 16) ELSE good   \* only the K flags of word 1 wrong
+Kinds == {"m", "o", "n", "x", "z"}
 
 Cycle(w) ==
     \E det \in (IF s.d.owe # <<>> THEN {TRUE, FALSE} ELSE {FALSE}) :
@@ -53,7 +55,7 @@ Gap == /\ ng < MaxGaps
 Stray == /\ nstray < MaxStray
          /\ Cycle(ForeignW)
          /\ nstray' = nstray + 1 /\ UNCHANGED <<cur, nsets, ng>>
-BeginSet == /\ cur = <<>> /\ nsets < MaxSets
+BeginSet == /\ nsets < MaxSets              \* (a set in progress may be abandoned: fragments)
             /\ \E kind \in Kinds, c \in Cfgs :
                  /\ Cycle(KindWord(kind, c, 1))
                  /\ cur' = IF SetLen = 1 THEN <<>> ELSE <<[kind |-> kind, cfg |-> c, k |-> 1]>>
